@@ -61,6 +61,40 @@ theorem Seqs.mono {app : App} {s s' : State} {a : Arch} (h : Seqs app s a) (hsid
 /-- the runner is a `ret` -/
 def isRet (x : Runner) : Prop := (x.instr.instructionType == Gen.InstructionType.Ret) = true
 
+/-- the runner is a branch -/
+def isBr (x : Runner) : Prop := x.instr.instructionType.IsBranch = true
+
+/-- a branch in the list is its first element -/
+def BrHead (l : List Runner) : Prop := ∀ pre b post, l = pre ++ b :: post → isBr b → pre = []
+
+/-- two or more execute units, between two ticks: the execute-bus queue has been drained; the buffer holds what the
+control unit issued in the last cycle (at most two runners, due next cycle, a branch only first) -/
+structure WideB (s : State) : Prop where
+  xq : s.executeBus.queue = []
+  due : ∀ e ∈ s.executeBus.buffer, e.1 ≤ s.cycles + 1
+  len : s.executeBus.buffer.length ≤ 2
+  br : BrHead (s.executeBus.buffer.map (·.2))
+
+/-- … after `Connect`: everything has moved to the queue -/
+structure WideP (s : State) : Prop where
+  xb : s.executeBus.buffer = []
+  br : BrHead s.executeBus.queue
+
+/-- … while the execute units run (`i` units done): a branch in the queue is its head and only the first unit sees it; the
+queue empties as the units take their runners -/
+structure WideM (s : State) (i : Nat) : Prop where
+  brq : ∀ x ∈ s.executeBus.queue, isBr x → i = 0 ∧ ∃ q', s.executeBus.queue = x :: q' ∧ ∀ y ∈ q', ¬ isBr y
+  drain : s.executeBus.queue = [] ∨ s.executeBus.queue.length + i ≤ 2
+  due : ∀ e ∈ s.executeBus.buffer, e.1 ≤ s.cycles + 1
+  len : s.executeBus.buffer.length ≤ 2
+  br : BrHead (s.executeBus.buffer.map (·.2))
+
+theorem brHead_cons {x : Runner} {q : List Runner} (h : BrHead (x :: q)) : ∀ y ∈ q, ¬ isBr y := by
+  intro y hy hb
+  obtain ⟨p1, p2, rfl⟩ := List.append_of_mem hy
+  have := h (x :: p1) y p2 (by simp) hb
+  cases this
+
 /-- the state between the units of one tick: front, back, and the occupancy facts the execute units need -/
 structure Mid (app : App) (s : State) (a : Arch) (i : Nat) : Prop where
   front : ∃ n0, a.pc = pcOf n0 ∧ Front app s n0
@@ -75,8 +109,9 @@ structure Mid (app : App) (s : State) (a : Arch) (i : Nat) : Prop where
   /-- a `ret` issued in this cycle is alone on the execute bus -/
   retBuf : ∀ e ∈ s.executeBus.buffer, isRet e.2 → s.executeBus.queue = [] ∧ s.executeBus.buffer = [(s.cycles + 1, e.2)]
   seqs : Seqs app s a
-  /-- at most one execute unit (no two instructions execute in one tick), or a program that never flushes -/
-  k1 : s.eus.length ≤ 1 ∨ NoCond app
+  /-- at most one execute unit (no two instructions execute in one tick), or a program that never flushes, or the
+  occupancy facts of the wide machine -/
+  k1 : s.eus.length ≤ 1 ∨ NoCond app ∨ WideM s i
 
 /-- what the execute units leave alone -/
 structure EuKeep (s s' : State) : Prop where
